@@ -437,7 +437,7 @@ def strefun_root(ctx, name):
 
 def shard_main(ctx):
     from hypothesis import given
-    n = {"quick": 900, "thorough": 60000}[ctx.tier]
+    n = {"quick": 900, "thorough": 20000}[ctx.tier]
     w = get_worker(ctx)
     ctx.extra["efuns_total"] = len(efuns()) if ctx.shard == 0 else 0
     ctx.excluded["efun:shutdown"] = 0
@@ -455,7 +455,7 @@ def shard_main(ctx):
     try:
         runner.run_hypothesis(ctx, test, n)
         if not ctx.failures:
-            runner.run_hypothesis(ctx, test_programs, {"quick": 220, "thorough": 20000}[ctx.tier])
+            runner.run_hypothesis(ctx, test_programs, {"quick": 220, "thorough": 5000}[ctx.tier])
     finally:
         close_workers(ctx)
     # shards 4-7 (quick) / all shards (thorough): coverage-guided campaign over the string efuns that interpret one of their arguments
